@@ -1,5 +1,81 @@
-"""C15 entries beyond the plain decoders (filled in below as the models land)."""
+"""C15 entries beyond the plain decoders: record iteration over arbitrary file bytes
+(FormatStream, both directions), executed from the MIR of sos-filesystem."""
+import z3
+
+from mirsym import harness as H
+from mirsym import models as M
+from mirsym.engine import Cell, Ref, Int, EnumV, Agg, Inconclusive
+
+MAX_ITEMS = 4
+
+
+def make_stream(file_obj, header_offset, prefix, reverse):
+    """a FormatStream<T, R> value (fields in declaration order)"""
+    return Agg("struct", "FormatStream", [
+        Cell(Int(header_offset, 64)),      # header_offset
+        Cell(prefix),                      # data_length_prefix
+        Cell(file_obj),                    # read_stream
+        Cell(M.none()),                    # forward
+        Cell(M.none()),                    # backward
+        Cell(reverse),                     # reverse
+        Cell(Agg("struct", "PhantomData", [])),
+    ])
+
+
+def iterate(eng, ctx, stream_cell, ty, reverse, limit=MAX_ITEMS):
+    """call next_forward / next_back until None, Err or `limit` items; returns (items, end)"""
+    fn = "FormatStream::<%s, File>::%s" % (ty, "next_back" if reverse else "next_forward")
+    items = []
+    while True:
+        if len(items) >= limit:
+            return items, "limit"
+        fut = eng.call_named(fn, [Ref(stream_cell)], None)
+        r = H.poll_to_result(eng, ctx, fut)
+        if r.variant == "Err":
+            return items, "err"
+        opt = r.fields[0].v
+        if opt.variant == "None":
+            return items, "none"
+        items.append(opt.fields[0].v)
+
+
+class StreamEntry:
+    def __init__(self, ty, reverse, prefix, max_len, header_offset=4):
+        self.ty = ty
+        self.reverse = reverse
+        self.prefix = prefix
+        self.header_offset = header_offset
+        self.max_len = max_len
+        self.name = "format_stream:%s:%s" % (ty, "backward" if reverse else "forward")
+
+    def thunk(self, eng):
+        def thunk(ctx):
+            inp = H.SymInput(ctx, self.max_len)
+            ctx.inp = inp
+            f = inp.reader()
+            st = Cell(make_stream(f, self.header_offset, self.prefix, self.reverse))
+            items, end = iterate(eng, ctx, st, self.ty, self.reverse)
+            return (len(items), end)
+        return thunk
+
+    def case(self, data):
+        return {"op": "format_stream", "ty": self.ty, "reverse": self.reverse, "prefix": self.prefix,
+                "header_offset": self.header_offset, "bytes": data.hex(), "limit": MAX_ITEMS}
+
+    def outcome(self, value):
+        n, end = value
+        return "%d:%s" % (n, end)
+
+    def native_outcome(self, nat):
+        if nat.get("outcome") != "ok":
+            return nat.get("outcome")
+        return "%d:%s" % (nat.get("count"), nat.get("end"))
 
 
 def entries(tier):
-    return []
+    ml = 104 if tier == "quick" else 220
+    out = []
+    for ty, prefix in (("EventLogRecord", True), ("VaultRecord", True), ("FileRecord", False)):
+        for rev in (False, True):
+            out.append(StreamEntry(ty, rev, prefix, ml))
+    return out
